@@ -19,3 +19,17 @@ Definition bound_of (c : program * nat) : nat :=
   let '(prog, lv) := c in
   let '(certs, cleans) := compute_certs prog (S (length prog)) in
   rtc_bound prog certs lv 1.
+
+(* Restart decision of the real _abort_flow for a flow that fails by itself, against the model's
+   fail_inst under the repaired guard.  case = (activated, new_instance_started, deactivate_flow,
+   the flow had been STARTED, a restart StartFlow was observed). *)
+Definition model_restarts (act nis deact was_started : bool) : bool :=
+  if deact then false
+  else
+    let c := {| c_flow := 0; c_pos := 0; c_catch := []; c_status := if was_started then CStarted else CStarting;
+                c_act := act; c_restarted := nis; c_inert := false |} in
+    match r_left (fail_inst true c false nis 0 []) with [] => false | _ => true end.
+
+Definition check_restart (c : bool * bool * bool * bool * bool) : bool :=
+  let '(act, nis, deact, was_started, observed) := c in
+  Bool.eqb (model_restarts act nis deact was_started) observed.
